@@ -61,6 +61,7 @@ def run(db, chk):
     prefix_filter_rule(db, chk)
     candidate_order_rule(db, chk)
     candidate_prefix_rule(db, chk)
+    prefix_semantics_agree_rule(db, chk)
     check_sorter("ws(walkdir)", db, chk, r"walkdir::WalkDir::sort_by$")
     db2 = facts.load("fs-par")
     check_sorter("fs-par(jwalk)", db2, chk, r"::process_read_dir$")
@@ -210,3 +211,49 @@ def candidate_prefix_rule(db, chk):
         chk.ob("later-candidates-live-in-refs", "construct_full_name_ref push(refs/)@%d" % p.line, p.block in reach_true and uses_inbetween,
                "`refs/` is prepended only when the name does not look like a full name, whatever `inbetween` is: for the short name RELEASE the candidates are RELEASE, tags/RELEASE, heads/RELEASE - refs/tags/RELEASE is never tried and the lookup fails although git resolves it",
                p.where(), key="candidate-prefix|construct_full_name_ref")
+
+
+def prefix_semantics_agree_rule(db, chk):
+    """prefixed iteration merges two sources that must understand the prefix alike.  The loose side decides by looking at the disk: a prefix
+    that names a directory is walked as that directory (`refs/heads/a` == `refs/heads/a/`), otherwise its last component filters file names.
+    The packed side filters by string prefix, so for the directory case it has to be given the prefix WITH the trailing slash - or packed
+    refs/heads/ab shows up next to loose refs/heads/a/x while loose refs/heads/ac does not.  In iter_from_info the value handed to
+    packed::Buffer::iter_prefixed depends on the IterInfo variant: a byte/str push onto it is control-dependent on a test of that variant."""
+    from gx.flow import control_switches
+    f = db.one(r"^gix_ref::store_impl::file::overlay_iter::<impl gix_ref::store_impl::file::Store>::iter_from_info$|^gix_ref::store_impl::file::overlay_iter::<impl gix_ref::file::Store>::iter_from_info$")
+    fl = Flow(f)
+    cs = f.calls_to(r"packed::iter::<impl gix_ref::store_impl::packed::Buffer>::iter_prefixed$|Buffer>::iter_prefixed$")
+    chk.floor("iter_from_info: packed.iter_prefixed", len(cs), 1)
+    info_locals = {i for i, t in enumerate(f.locals) if "overlay_iter::IterInfo" in t}
+    for c in cs:
+        ok = False
+        for p in f.calls():
+            if not p.is_(r"::push$|::push_byte$|::push_str$|::push_char$|::extend_from_slice$") or not f.dominates(p.block, c.block) and p.block not in f.reach_from(0):
+                continue
+            if c.block not in f.reach_from(p.block):
+                continue
+            for b in control_switches(f, p.block):
+                t = f.term(b)
+                # the switch operand derives from the discriminant of an IterInfo value
+                seen, work = set(), [t[1]["p"][0]] if "p" in t[1] else []
+                while work:
+                    l = work.pop()
+                    if l in seen:
+                        continue
+                    seen.add(l)
+                    for b2, s2, pl2, rv2, ln2, mc2 in f.assigns():
+                        if pl2 and pl2[0] == l:
+                            if rv2[0] == "discr" and rv2[1] and (rv2[1][0] in info_locals or "IterInfo" in str(rv2[3])):
+                                ok = True
+                            for o in ([rv2[1]] if rv2[0] == "use" else [rv2[2]] if rv2[0] in ("cast", "un") else [rv2[2], rv2[3]] if rv2[0] == "bin" else []):
+                                if isinstance(o, dict) and "p" in o and isinstance(o["p"][0], int):
+                                    work.append(o["p"][0])
+                            if rv2[0] == "use" and "p" not in rv2[1]:
+                                # a materialised bool (`matches!`): the value depends on the switches that select this assignment
+                                for b3 in control_switches(f, b2):
+                                    t3 = f.term(b3)
+                                    if "p" in t3[1] and isinstance(t3[1]["p"][0], int):
+                                        work.append(t3[1]["p"][0])
+        chk.ob("packed-prefix-follows-loose-mode", "iter_from_info iter_prefixed@%d" % c.line, ok,
+               "the packed side always filters by the prefix as a string while the loose side walks a directory when the prefix names one: with loose refs/heads/a/x, packed refs/heads/ab and loose refs/heads/ac the prefix refs/heads/a yields a/x and ab",
+               c.where(), key="prefix-semantics|iter_from_info")
